@@ -208,10 +208,19 @@ def frame_mutation(d, service, mutation, part=None, seg="segmentedBoth", header_
         n, a = None, None
     intact = (n is not None and n["version"] == 1 and not n["net_msg"] and n["dnet"] is None and n["snet"] is None
               and a is not None and a["type"] == 0 and not a["seg"] and a["maxresp"] <= 5)
+    reserved = (n is not None and n["version"] == 1 and not n["net_msg"] and n["dnet"] is None and n["snet"] is None
+                and a is not None and a["type"] == 0 and not a["seg"] and a["maxresp"] > 5 and a["hdrlen"] == 4)
     if intact:
         mine = [x for x in rs if x["invoke"] == a["invoke"] and x["type"] in REPLY_TYPES]
         if len(mine) != 1 or len(rs) != 1:
             d.flag(True, "not-exactly-one-reply", n=len(mine), mutant=mutant, logged=[e[1] for e in d.errors_logged()])
+    elif reserved:
+        # the header is complete, only the maximum-response code is one the standard reserves: the request cannot be
+        # served (no size to answer within) but its invoke ID is known - it is refused, not met with silence
+        mine = [x for x in rs if x["invoke"] == a["invoke"] and x["type"] in (6, 7)]
+        if len(mine) != 1 or len(rs) != 1:
+            d.flag(True, "reserved-max-apdu-not-refused-once", n=len(mine), replies=len(rs), mutant=mutant,
+                   logged=[e[1] for e in d.errors_logged()])
     elif len(rs) > 1:
         raise Violation("more-than-one-reply", n=len(rs), mutant=mutant)
     check_health(d, w, lan, dev, peer, "mutated-frame")
@@ -238,6 +247,52 @@ def layer_noise(d, n, first):
         raise Violation("concurrent-valid-request-not-answered", noise=noise,
                         got=[(x["type"], x["invoke"]) for x in ro], logged=[e[1] for e in d.errors_logged()])
     check_health(d, w, lan, dev, peer, "noise")
+    d.reach()
+
+
+@meta(bounds="garbage that claims to be relayed from a remote network: station G sends a frame whose NPCI names source "
+             "network 5 (SADR 7) followed by a concrete first APDU octet and 0..n symbolic octets (or nothing); "
+             "then the real router R relays a valid ReadProperty from network 5 (from station 7 or 9); order of the two symbolic",
+      outside="longer garbage; several remote networks; garbage with a DNET",
+      stubs=STUBS)
+def routed_noise(d, n):
+    w, lan, dev, peer, av = make_world()
+    router = nl.RawPeer(PEER + 1, lan)
+    g_sadr = 7
+    first = d.pick([[], [0x00], [0x10], [0x30], [0x70]], 'garbage_apdu_starts_with')
+    k = d.index(n + 1, 'noise_tail_length') if first else 0
+    area = bytes(list(first) + [d.int(0, 255, 'noise%d' % i) for i in range(k)])
+    der = d.bool('garbage_expects_reply')
+    garbage = bytes([1, 0x0C if der else 0x08, 0, 5, 1, g_sadr]) + area
+    r_sadr = d.pick([7, 9], 'requester_sadr')      # the station the garbage named, or another one
+    valid = bytes([1, 0x0C, 0, 5, 1, r_sadr]) + read_pv(0x42)
+    garbage_first = d.bool('garbage_first')
+    if garbage_first:
+        peer.send(dev.address, garbage)
+        w.run()
+    router.send(dev.address, valid)
+    w.run()
+    if not garbage_first:
+        peer.send(dev.address, garbage)
+        w.run()
+    # the answer goes back through the router that relayed the request, addressed to the requester on network 5
+    got = []
+    for (src, data) in router.received:
+        nn, a = wire.parse_frame(data)
+        if a is not None:
+            got.append((nn, a))
+    if len(got) != 1:
+        raise Violation("routed-request-not-answered-through-its-router", n=len(got), garbage=garbage,
+                        to_garbage_sender=len(peer.received), garbage_first=garbage_first)
+    nn, a = got[0]
+    if nn["dnet"] != 5 or nn["dadr"] != bytes([r_sadr]) or a["type"] != 3 or a["invoke"] != 0x42 \
+            or bytes(a["payload"]) != PV_ACK_BODY:
+        raise Violation("routed-answer-wrong", dnet=nn["dnet"], dadr=nn["dadr"], type=a["type"], invoke=a["invoke"])
+    for (src, data) in peer.received:
+        nn, a = wire.parse_frame(data)
+        if a is not None and a["type"] == 3:
+            raise Violation("answer-delivered-to-garbage-sender", garbage=garbage)
+    check_health(d, w, lan, dev, peer, "routed-noise")
     d.reach()
 
 
@@ -388,6 +443,7 @@ def instances(tier):
         out.append(Inst(layer_noise, dict(n=(1 if t == 0x01 else 2) if q else (2 if t == 0x01 else 4), first=[1, 0x80, t]),
                         budget=80 if q else 600,
                         label="network-message-%02x" % t))
+    out.append(Inst(routed_noise, dict(n=1 if q else 3), budget=120 if q else 900, path_timeout=60))
     if not q:
         out.append(Inst(layer_noise, dict(n=6, first=[1, 0x20]), budget=900, label="apdu-area,dnet"))
         out.append(Inst(layer_noise, dict(n=6, first=[1, 0x08]), budget=900, label="apdu-area,snet"))
